@@ -461,6 +461,37 @@ func (g *gen) gotoGraph(name string) {
 	// entry jumps to a drawn start label
 	start := g.pick("start", n)
 	targeted[start] = true
+	if n >= 3 && g.chance("force-irreducible", 1, 3) {
+		// a loop {x, y} entered at both x and y: start -> x | y, x -> y, y -> x
+		x := (start + 1 + g.pick("irx", n-1)) % n
+		y := x
+		for y == x || y == start {
+			y = (y + 1) % n
+		}
+		g.feat["forced-irreducible"] = true
+		setTerm := func(i int, lines ...string) {
+			ls := blocks[i].lines
+			// drop the drawn terminator: everything after the last assignment group is replaced
+			blocks[i].lines = append(ls[:4:4], lines...)
+		}
+		setTerm(start, fmt.Sprintf("if %s {", g.cond()), fmt.Sprintf("\tgoto B%d", x), "}", fmt.Sprintf("goto B%d", y))
+		setTerm(x, fmt.Sprintf("%s = %s", g.v(), g.expr(1)), fmt.Sprintf("if %s {", g.cond()), fmt.Sprintf("\tgoto B%d", y), "}", fmt.Sprintf("return %s", g.v()))
+		z := g.pick("irz", n)
+		setTerm(y, fmt.Sprintf("%s += 1", g.v()), fmt.Sprintf("if %s {", g.cond()), fmt.Sprintf("\tgoto B%d", x), "}", fmt.Sprintf("goto B%d", z))
+		// recompute which labels are targeted
+		for i := range targeted {
+			targeted[i] = false
+		}
+		targeted[start] = true
+		for i := 0; i < n; i++ {
+			for _, l := range blocks[i].lines {
+				var t int
+				if _, err := fmt.Sscanf(strings.TrimSpace(l), "goto B%d", &t); err == nil {
+					targeted[t] = true
+				}
+			}
+		}
+	}
 	g.w(1, "goto B%d", start)
 	for i := 0; i < n; i++ {
 		if !targeted[i] {
